@@ -2,6 +2,7 @@
    Statements only; proofs are in Proofs/Logic.v. *)
 From Coq Require Import List NArith Bool.
 From V Require Proofs.ExprsTie.   (* the kernels' word-level expressions, regenerated from the Rust source, equal the model's *)
+From V Require Import Checkers.Check Proofs.CheckSound.   (* the extracted checkers and their soundness proofs, pinned at the end of this file *)
 From V Require Import Base.Res Model.Kernels Model.Api Spec.Bfun Proofs.Logic.
 Import ListNotations.
 Open Scope N_scope.
@@ -203,3 +204,66 @@ Print Assumptions C01_operator_table.
 Print Assumptions C01_named_methods_forward.
 Print Assumptions C01_named_table.
 Print Assumptions C01_kernels_use_their_symbol.
+
+
+(* ---- soundness of the extracted checkers that decide this property's statement on the implementation's results *)
+Open Scope N_scope.
+Theorem C01_checker_table_iff : forall n t f,
+  chk_table n t f = true <-> wf n t /\ forall m, m < 2 ^ N.of_nat n -> val t m = f m.
+Proof. exact CheckSound.chk_table_iff. Qed.
+
+Theorem C01_checker_table_false : forall n t f,
+  chk_table n t f = false <-> ~ (wf n t /\ forall m, m < 2 ^ N.of_nat n -> val t m = f m).
+Proof. exact CheckSound.chk_table_false. Qed.
+
+Theorem C01_checker_table_unique : forall n t t' f,
+  chk_table n t f = true -> chk_table n t' f = true -> t' = t.
+Proof. exact CheckSound.chk_table_unique. Qed.
+
+Theorem C01_checker_and_model : forall a b r,
+  wf (nv a) (tbl a) -> wf (nv b) (tbl b) -> nv a = nv b -> D_and a b = Ok r ->
+  nv r = nv a /\ chk_table (nv a) (tbl r) (spec_and (tbl a) (tbl b)) = true.
+Proof. exact CheckSound.chk_and_model. Qed.
+
+Theorem C01_checker_or_model : forall a b r,
+  wf (nv a) (tbl a) -> wf (nv b) (tbl b) -> nv a = nv b -> D_or a b = Ok r ->
+  nv r = nv a /\ chk_table (nv a) (tbl r) (spec_or (tbl a) (tbl b)) = true.
+Proof. exact CheckSound.chk_or_model. Qed.
+
+Theorem C01_checker_xor_model : forall a b r,
+  wf (nv a) (tbl a) -> wf (nv b) (tbl b) -> nv a = nv b -> D_xor a b = Ok r ->
+  nv r = nv a /\ chk_table (nv a) (tbl r) (spec_xor (tbl a) (tbl b)) = true.
+Proof. exact CheckSound.chk_xor_model. Qed.
+
+Theorem C01_checker_not_model : forall a r,
+  wf (nv a) (tbl a) -> D_not a = Ok r ->
+  nv r = nv a /\ chk_table (nv a) (tbl r) (spec_not (tbl a)) = true.
+Proof. exact CheckSound.chk_not_model. Qed.
+
+Theorem C01_checker_and_kernel : forall n a b c,
+  wf n a -> wf n b -> and_inplace a b = Ok c -> chk_table n c (spec_and a b) = true.
+Proof. exact CheckSound.chk_and_kernel. Qed.
+
+Theorem C01_checker_or_kernel : forall n a b c,
+  wf n a -> wf n b -> or_inplace a b = Ok c -> chk_table n c (spec_or a b) = true.
+Proof. exact CheckSound.chk_or_kernel. Qed.
+
+Theorem C01_checker_xor_kernel : forall n a b c,
+  wf n a -> wf n b -> xor_inplace a b = Ok c -> chk_table n c (spec_xor a b) = true.
+Proof. exact CheckSound.chk_xor_kernel. Qed.
+
+Theorem C01_checker_not_kernel : forall n a,
+  wf n a -> chk_table n (not_inplace n a) (spec_not a) = true.
+Proof. exact CheckSound.chk_not_kernel. Qed.
+
+Print Assumptions C01_checker_table_iff.
+Print Assumptions C01_checker_table_false.
+Print Assumptions C01_checker_table_unique.
+Print Assumptions C01_checker_and_model.
+Print Assumptions C01_checker_or_model.
+Print Assumptions C01_checker_xor_model.
+Print Assumptions C01_checker_not_model.
+Print Assumptions C01_checker_and_kernel.
+Print Assumptions C01_checker_or_kernel.
+Print Assumptions C01_checker_xor_kernel.
+Print Assumptions C01_checker_not_kernel.
